@@ -32,6 +32,15 @@ def rangeValues (start endv : Int) : List Int :=
 def rangeScript (start endv : Int) (c : Ctx) : List (Notif Int) :=
   (rangeValues start endv).map (Notif.next c) ++ [.complete c]
 
+/-- the values of `RangeWithStep(start, end, step)`, `step > 0`: "[start:end) … descending when start is greater than
+    end": `start ± i·step` for every `i` with `i·step < |end - start|` — that is `⌈|end - start| / step⌉` values -/
+def rangeStepValues (start endv : Int) (step : Nat) : List Int :=
+  (List.range (((endv - start).natAbs + step - 1) / step)).map
+    (fun (i : Nat) => if start ≤ endv then start + ((i * step : Nat) : Int) else start - ((i * step : Nat) : Int))
+
+def rangeStepScript (start endv : Int) (step : Nat) (c : Ctx) : List (Notif Int) :=
+  (rangeStepValues start endv step).map (Notif.next c) ++ [.complete c]
+
 /-- Repeat: `count` copies of the item, then completion. -/
 def repeatScript (item : α) (count : Nat) (c : Ctx) : List (Notif α) :=
   List.replicate count (Notif.next c item) ++ [.complete c]
